@@ -31,11 +31,35 @@ def _enclosing_fn(text_lines, line):
     return "?"
 
 
+_CLEAN = set()
+
+
+def _register_cleanup(d):
+    if d in _CLEAN:
+        return
+    _CLEAN.add(d)
+    import atexit, shutil
+
+    def _rm():
+        # keep the last generated files of this process next to the per-process directories, for inspection
+        keep = os.path.dirname(d)
+        try:
+            for f in os.listdir(d):
+                if f.endswith(".rs"):
+                    os.replace(os.path.join(d, f), os.path.join(keep, f))
+        except OSError:
+            pass
+        shutil.rmtree(d, ignore_errors=True)
+    atexit.register(_rm)
+
+
 def run_unit(name, canary=False, timeout=600):
     """returns dict(status=ok|failed|undecided, functions=[...], failures=[...], ...)"""
     unit_path = os.path.join(VERUS_DIR, "units", name + ".py")
-    out_dir = os.path.join(BUILD, "verus" + _TAG)
+    # one scratch directory per process: two checks that run the same unit at the same time never share a file
+    out_dir = os.path.join(BUILD, "verus" + _TAG, "p%d" % os.getpid())
     os.makedirs(out_dir, exist_ok=True)
+    _register_cleanup(out_dir)
     tag = name + ("_canary" if canary else "")
     rs = os.path.join(out_dir, tag + ".rs")
     res = {"unit": name, "canary": canary, "file": rs, "status": "undecided", "functions": [],
